@@ -345,7 +345,7 @@ def _run_deletion(cfg):
     O = [[z3.Real(f"oks_{i}_{j}") for j in range(P)] for i in range(G)]
     sc = [z3.Real(f"score_{j}") for j in range(P)]
     t = z3.Real("t")
-    base = [z3.And(o > 0, o <= 1) for row in O for o in row] + [t > 0, t <= 1]
+    base = [z3.And(o >= 0, o <= 1) for row in O for o in row] + [t > 0, t <= 1]
     ex = Explorer(base, timeout_ms=60000, max_paths=50000)
 
     def oks_stub(points_gt, points_pr, stddev=None, scale=None, **kw):
@@ -380,6 +380,14 @@ def _run_deletion(cfg):
     for full, sub in ex.run(path):
         rep.paths += 1
         rep.nontrivial_paths += 1
+        # D0: a pair is only formed when its OKS exceeds the match threshold (0 here): a prediction with OKS 0 to everything stays unmatched
+        for (a, b, c) in full:
+            v = ex.prove(rcmp(">", XF.of(c).v, 0))
+            rep.record("D0-matched-pairs-have-oks-above-the-match-threshold", v.status, v.seconds)
+            if v.status == "sat":
+                env = DefaultEnv(model_env(ex.full_model([z3.Not(xf.zb(rcmp(">", XF.of(c).v, 0)))])) or {})
+                rep.violation("D0-matched-pairs-have-oks-above-the-match-threshold", "pair-at-or-below-match-threshold", f"pair ({a},{b}) was formed although its OKS does not exceed the match threshold",
+                              {"oks": [[float(env[f"oks_{i}_{q}"]) for q in range(P)] for i in range(G)], "scores": [float(env[f"score_{q}"]) for q in range(P)], "t": float(env["t"]), "deleted": -1})
         for j, pr in sub.items():
             v = ex.prove(rcmp("<=", tp(pr), tp(full)))
             rep.record("D1-deleting-a-prediction-never-increases-recall", v.status, v.seconds)
@@ -499,6 +507,12 @@ def replay(cfg, inputs, obligation):
                 fp = _Frame([_I(f"p{j}", np.array([[float(j), 0.0]]), score=sc[j]) for j in keep])
                 pairs, fn = ev.match_instances(fg, fp, stddev=0.125, scale=None, threshold=0)
                 return sum(1 for _, _, c in pairs if c >= t)
+            if obligation.startswith("D0"):
+                fg = _Frame([_I(f"g{i}", np.array([[float(i), 0.0]])) for i in range(G)])
+                fp = _Frame([_I(f"p{j}", np.array([[float(j), 0.0]]), score=sc[j]) for j in range(P)])
+                pairs, fn = ev.match_instances(fg, fp, stddev=0.125, scale=None, threshold=0)
+                bad = [(a.instance.tag, b.instance.tag, float(c)) for a, b, c in pairs if not c > 0]
+                return bool(bad), f"[real match_instances, OKS pinned to {O.tolist()}] pairs with OKS <= threshold 0: {bad}"
             full, sub = run(list(range(P))), run([q for q in range(P) if q != dele])
         finally:
             ev.compute_oks = real
